@@ -324,6 +324,16 @@ def rule_e(model, rep):
               site("HtpasswdFile.check_password"), "verify_and_update; store new hash when ok", "deprecated hashes are upgraded on successful check")
     fn = model.func(AP, "HtpasswdFile.set_password")
     rep.check("hash = self.context.hash(password)" in qtext(fn), R, site("HtpasswdFile.set_password"), "self.context.hash(password)", "password hashed by the file's context")
+    # the context the methods use is the caller's: self.context is the `context` parameter or a value computed from it on every path
+    fn = model.func(AP, "HtpasswdFile.__init__")
+    stores = [n for n in walk_no_nested(fn) if isinstance(n, ast.Assign) and any(ast.unparse(t) == "self.context" for t in n.targets)]
+    rebinds = [n for n in walk_no_nested(fn) if isinstance(n, ast.Assign) and any(isinstance(t, ast.Name) and t.id == "context" for t in n.targets)]
+    has_param = "context" in [a.arg for a in fn.args.args + fn.args.kwonlyargs]
+    foreign = [ast.unparse(n) for n in rebinds if not any(isinstance(x, ast.Name) and x.id == "context" for x in ast.walk(n.value))]
+    ok = has_param and len(stores) >= 1 and all(ast.unparse(n.value) == "context" for n in stores) and not foreign
+    rep.check(ok, R, site("HtpasswdFile.__init__") + " context", "; ".join(foreign) or "; ".join(ast.unparse(n) for n in stores + rebinds),
+              "the file works with the context the caller passed: `context` is only ever replaced by a value derived from itself (context.copy(default=...))",
+              witness="HtpasswdFile(path, context=CryptContext([...], deprecated=[...]), default_scheme='sha256_crypt').check_password(user, pw) never upgrades the deprecated hash: the caller's policy was replaced by a copy of the stock htpasswd_context")
 
 
 def rule_j(model, rep):
